@@ -84,9 +84,19 @@ CHECKS = {
   "Generated name/version/arch combinations x 5 formats: the proposed file name must equal the name composed from the decoded metadata, end in the conventional extension and not alter the package; the CLI is run with target = file, directory, symlinked directory, blank, with and without -p, and with .deb/.rpm/.apk/.ipk extensions.",
   "File names never carry the epoch. Format detection of CLI output uses the harness decoders.",
   "4/C15"),
+ "C16": ("exploration",
+  "runtime monitoring: unknown-key injection at every struct-typed mapping of a full document (sites found by walking the YAML tree in parallel with nfpm's Go types), recording env-mapping callback, expected-value oracle for documented expandable fields, exhaustive passphrase-variable combinations",
+  "Every mapping that decodes into a struct receives one unknown key per misspelling class and the parser must fail (exhaustive over sites x classes); every field documented as expandable is given each value shape under generated environments and compared with the expected expansion; the callback recorder shows which variables were looked up; all 16 passphrase-variable combinations are checked.",
+  "The must-expand set is taken from the wording of www/docs/configuration.md. Fields the code expands beyond the documentation are not given '$' values.",
+  "4/C16"),
+ "C17": ("exploration",
+  "runtime monitoring: the schema emitted by the built binary is compared with the published file, its key-path set with the parser's (reflection, exhaustive), and generated/enumerated documents that parse and build are validated by a harness subset validator and python jsonschema",
+  "Published file == `nfpm jsonschema -o` output (also when regenerated over an existing file); schema key paths == parser key paths (exhaustive); every documented enumerated value and generated valid configurations that the parser accepts and the packagers build must validate under two independent validators.",
+  "Documents always carry name, arch and version (documented as required). Undocumented deb signature roles are not generated.",
+  "4/C17"),
 }
 
-NOT_YET = "check not yet registered in this session (under construction)"
+NOT_YET = "not claimed"
 
 def main():
     checks = []
